@@ -144,6 +144,7 @@ class FitnessProbe:
         self.single = single
 
     fail_at = ()            # invocation numbers (0-based) at which the fitness function raises instead of returning
+    conv = None             # e.g. numpy.uint8: the callback hands back narrow unsigned scalars (counts, pixel errors)
 
     def __call__(self, ph):
         if self.k in self.fail_at:
@@ -155,6 +156,8 @@ class FitnessProbe:
             v = self.values[prog_value(ph.prog) % len(self.values)]
         self.k += 1
         self.events.append({"e": "ff", "tok": ph.token, "ret": list(v)})
+        if self.conv is not None and all(isinstance(x, int) and 0 <= x <= 255 for x in v):
+            return self.conv(v[0]) if self.single else [self.conv(x) for x in v]
         return fv(v[0]) if self.single else [fv(x) for x in v]
 
 
